@@ -326,3 +326,52 @@ def rule_aggr(prog, rows):
         else:
             obs.append(bad('AGGR', key, '%s() can return Ok without looking at every argument (%s): later arguments of the wrong type are accepted' % (r['name'], why), clo.where(), body=clo.name))
     return obs
+
+
+def rule_compound(prog, rows):
+    """x op= e binds what x op e yields: the arm of every compound-assignment literal `op=` performs
+    the same operation, on the same operand sides, as the arm of the plain literal `op` (sibling
+    agreement across the SETTER and the CALC handler; the operation itself is judged under C03)"""
+    acc_ids = {b.id for b in r_value.accessors(prog)}
+    side = _closure_side(prog, acc_ids)
+    sig = {}
+    where = {}
+    by_closure = {}
+    for r in rows:
+        if r['closure'] and len(r['args']) == 3:
+            by_closure.setdefault(r['closure'], []).append(r['name'])
+    for cu, names in sorted(by_closure.items()):
+        clo = prog.by_id.get(cu)
+        if clo is None:
+            continue
+        bodies = [clo] + [prog.by_id[x] for x in prog.reach([clo.id]) if x != clo.id and not prog.by_id[x].impl_trait]
+        got = False
+        for b in bodies:
+            a = Arms(b)
+            if not a.lits:
+                continue
+            regs = a.regions()
+            for lit in regs:
+                if lit in names:
+                    toks = _tokens_in(prog, b, regs[lit], side)
+                    sig[lit] = sorted((c, t_, s) for (c, t_, s, w) in toks)
+                    where[lit] = b
+                    got = True
+        if not got and len(names) == 1:
+            toks = _tokens_in(prog, clo, clo.live_blocks, side)
+            sig[names[0]] = sorted((c, t_, s) for (c, t_, s, w) in toks)
+            where[names[0]] = clo
+    obs = []
+    n = 0
+    for lit in sorted(sig):
+        if lit.endswith('=') and lit not in ('==', '!=', '<=', '>=', '=') and lit[:-1] in sig:
+            n += 1
+            key = 'COMPOUND|%s' % lit
+            if sig[lit] == sig[lit[:-1]] and sig[lit]:
+                obs.append(ok('COMPOUND', key, '`%s` and `%s` perform the same operation on the same operand sides (%s)' % (lit, lit[:-1], ', '.join('%s%s' % (t_, list(s)) for c, t_, s in sig[lit])), where[lit].where()))
+            elif not sig[lit] and not sig[lit[:-1]]:
+                obs.append(bad('COMPOUND', key, 'neither `%s` nor `%s` performs a recognisable operation' % (lit, lit[:-1]), where[lit].where(), body=where[lit].name))
+            else:
+                obs.append(bad('COMPOUND', key, '`%s` does not perform what `%s` performs: %s vs %s' % (lit, lit[:-1], sig[lit], sig[lit[:-1]]), where[lit].where(), body=where[lit].name))
+    obs.append(floor('COMPOUND', 'compound-operators', n, 8, 'the documented compound assignments'))
+    return obs
